@@ -21,6 +21,7 @@ out = {"repo_head": head, "when": time.strftime("%Y-%m-%d %H:%M")}
 demo_src = [f for f in os.listdir(d) if f.endswith("_test.go") or f.endswith(".go")]
 demo_file = meta.get("demo_file")
 def put_demo():
+    sh("rm -rf SEED && mkdir SEED && cp %s/* SEED/" % d)
     if demo_file and demo_src:
         os.makedirs(os.path.dirname(os.path.join(WT, demo_file)), exist_ok=True)
         open(os.path.join(WT, demo_file), "w").write(open(os.path.join(d, demo_src[0])).read())
@@ -56,7 +57,7 @@ for c in checks:
     v = [l for l in o.splitlines() if l.startswith("VIOLATION property=")]
     res[c] = {"exit": rc, "detected": rc == 1 and bool(v), "first": (v[0][:300] if v else o[-300:])}
 out["checks"] = res
-sh("git checkout -q -- . && git clean -fdq")
+sh("git checkout -q -- . && git clean -fdq && rm -rf SEED")
 meta.setdefault("confirmed", []).append(out)
 json.dump(meta, open(d + "/meta.json", "w"), indent=1)
 print(json.dumps(out, indent=1))
